@@ -24,12 +24,14 @@ func lvalueBase(e ast.Expr) string {
 		return lvalueBase(t.X)
 	case *ast.StarExpr:
 		return lvalueBase(t.X)
+	case *ast.SliceExpr: // the destination of copy(v[lo:hi], ..)
+		return lvalueBase(t.X)
 	}
 	return ""
 }
 
 // calls that assign their first argument in place
-var inPlaceCalls = map[string]bool{"slices.SortFunc": true, "slices.SortStableFunc": true}
+var inPlaceCalls = map[string]bool{"slices.SortFunc": true, "slices.SortStableFunc": true, "copy": true}
 
 // variables assigned by stmts that are declared outside them (out); `declared` = declared so far inside
 func (x *xtr) assigned(stmts []ast.Stmt, declared, out map[string]bool) {
@@ -193,6 +195,9 @@ func (x *xtr) references(nodes ...ast.Node) map[string]bool {
 	walk = func(n ast.Node) bool {
 		switch t := n.(type) {
 		case *ast.SelectorExpr:
+			if selName(t) == "math.MaxFloat32" && x.env["maxFloat32"] != nil {
+				r["maxFloat32"] = true // the abstract parameter float32(math.MaxFloat32) stands for (spec.Prims)
+			}
 			for _, m := range x.methods { // the abstract method parameters a call may stand for
 				if m.ft != nil && strings.HasSuffix(m.lean, "_"+t.Sel.Name) {
 					r[m.lean] = true
@@ -761,6 +766,31 @@ func (x *xtr) assign(t *ast.AssignStmt) string {
 	}
 	x.bad(t, "assignment target %T", lhs)
 	return ""
+}
+
+// s.f = <value computed from the current s.f> for a modelled slice field f of the struct variable s (whole-field update:
+// the destination of a copy)
+func (x *xtr) storeField(n ast.Node, fe *ast.SelectorExpr, value func(cur string, fty *xty) string) string {
+	id, ok := fe.X.(*ast.Ident)
+	if !ok || x.env[id.Name] == nil || x.env[id.Name].k != kStruct {
+		x.bad(n, "field update target")
+	}
+	if x.ptrParams[id.Name] {
+		x.bad(n, "assignment through the pointer parameter %s (visible to the caller)", id.Name)
+	}
+	sty := x.env[id.Name]
+	fty := x.structs[sty.name].field(fe.Sel.Name)
+	if fty == nil || fty.k != kList {
+		x.bad(n, "update of the field %s of %s, which is not a modelled slice", fe.Sel.Name, sty.name)
+	}
+	if x.structs[sty.name].caps[fe.Sel.Name] {
+		x.bad(n, "update of %s.%s, whose capacity is modelled", id.Name, fe.Sel.Name)
+	}
+	if x.shared[exprText(fe)] {
+		x.bad(n, "update of %s, which may share its backing array with another variable", exprText(fe))
+	}
+	cur := paren(ident(id.Name)) + "." + ident(fe.Sel.Name)
+	return fmt.Sprintf("let %s : %s := { %s with %s := %s }", ident(id.Name), sty.lean(), ident(id.Name), ident(fe.Sel.Name), value(cur, fty))
 }
 
 // s.f[i] = v for a slice field f of the struct variable s
